@@ -18,7 +18,7 @@ from pathlib import Path
 
 VERIF = Path(__file__).resolve().parent.parent
 SPEC = VERIF / "spec"
-OUT = VERIF / "out"
+OUT = Path(os.environ.get("VERIF_OUT", VERIF / "out"))
 JAR = "/opt/veriftools/tla/tla2tools.jar:/opt/veriftools/tla/CommunityModules-deps.jar"
 
 
@@ -157,6 +157,14 @@ def run_tlc(
     return r
 
 
+def _eval_error(raw: str) -> bool:
+    """TLC stopped while EVALUATING a record (32-bit overflow, or a value of a shape the formula cannot compare, e.g. a
+    list where the unchanged tree yields a string).  Only a result outside everything the unchanged tree produces can do
+    that, so the record is isolated by bisection and rejected instead of reporting a machinery failure."""
+    return "Overflow when computing" in raw or "Attempted to check equality" in raw or "Attempted to compare" in raw \
+        or "Attempted to apply" in raw or "Attempted to select field" in raw or "Attempted to access" in raw
+
+
 def _beyond_int(x) -> bool:
     if isinstance(x, bool):
         return False
@@ -188,7 +196,7 @@ def validate_traces(module: str, cfg: str, records: list[dict], *, shards: int =
         rej, cons, wall = validate_traces(module, cfg, rest, shards=shards, tag=tag, timeout=timeout, heap=heap, env=env)
         return rej + [{"id": r["id"], "failing": ["beyond_int_range"]} for r in big], cons + len(big), wall
     shards = max(1, min(shards, (len(records) + 19) // 20))
-    tdir = OUT / "traces" / tag
+    tdir = OUT / "traces" / f"{tag}-{os.getpid()}"      # concurrent runs (other tier, seed runners) never share a directory
     if tdir.exists():
         shutil.rmtree(tdir)
     tdir.mkdir(parents=True)
@@ -206,7 +214,7 @@ def validate_traces(module: str, cfg: str, records: list[dict], *, shards: int =
             return run_tlc(module, cfg, workers=1, env={"TRACE_FILE": str(files[i]), **(env or {})},
                            timeout=timeout, tag=f"{tag}-s{i}-{os.getpid()}", heap=heap)
         except MachineryError as e:
-            if "Overflow when computing" not in str(e):
+            if not _eval_error(str(e)):
                 raise
             from types import SimpleNamespace
             return SimpleNamespace(ok=False, prints=[], raw=str(e))
@@ -217,11 +225,11 @@ def validate_traces(module: str, cfg: str, records: list[dict], *, shards: int =
     rejects, consumed = [], 0
     for i, r in enumerate(results):
         done = [p for p in r.prints if isinstance(p, dict) and "done" in p]
-        if (not r.ok or len(done) != 1) and "Overflow when computing" in r.raw:
+        if (not r.ok or len(done) != 1) and _eval_error(r.raw):
             # an intermediate product left 32 bits while judging some record of this shard: isolate it by bisection
             # and reject it (same reasoning as above); the other records are judged normally
             if len(parts[i]) == 1:
-                rejects.append({"id": parts[i][0]["id"], "failing": ["beyond_int_range"]})
+                rejects.append({"id": parts[i][0]["id"], "failing": ["beyond_int_range" if "Overflow when computing" in r.raw else "shape_outside_spec_domain"]})
                 consumed += 1
             else:
                 h = len(parts[i]) // 2
@@ -238,6 +246,7 @@ def validate_traces(module: str, cfg: str, records: list[dict], *, shards: int =
         if len(rej) != done[0]["bad"]:
             raise MachineryError(f"trace validator {module} shard {i}: reject lines != bad count")
         rejects += rej
+    shutil.rmtree(tdir, ignore_errors=True)
     return rejects, consumed, time.time() - t0
 
 
@@ -245,7 +254,7 @@ def tlc_compute(module: str, items: list[dict], *, tag: str = "calc", shards: in
     """Run a `*Calc` module over items (each with an "id"); returns {id: printed record}."""
     if not items:
         return {}
-    tdir = OUT / "traces" / tag
+    tdir = OUT / "traces" / f"{tag}-{os.getpid()}"
     if tdir.exists():
         shutil.rmtree(tdir)
     tdir.mkdir(parents=True)
